@@ -251,6 +251,18 @@ def run(tier, seed):
                 path = native.write_replay("C08", "c08", "model", [], {"engine": "smt", "mode": "model-only", "obligation": ob["harness"], "message": ob["message"], "model": ob.get("counterexample")})
                 ob["replay_path"] = path
                 ob["replay"] = {"path": path, "outcome": "model-only", "message": "emission sequence of the installation"}
+    # the log catalogue of an installation that empties the log (delete_through = None), at the level of the log manager
+    from . import c03files
+    eob = c03files.run_install_none(tier, seed)
+    if eob.get("verdict") == "violation" and not os.environ.get("VERIF_NO_NATIVE"):
+        rr = native_scenarios("C08", "violation", ["install_beyond_leftover_log_then_append"], eob["message"], {"obligation": eob["harness"], "model": eob.get("counterexample")})
+        eob["replay_path"] = rr["path"]
+        eob["replay"] = {"path": rr["path"], "outcome": rr["outcome"], "message": rr["message"]}
+        if rr["outcome"] != "reproduced":
+            eob.update({"verdict": "inconclusive", "message": "engine-S counterexample (%s) did not reproduce on a real node (%s %s)" % (eob["message"], rr["outcome"], rr["message"])})
+        else:
+            eob["message"] = "%s [real node, through RaftStorage::{replicate_to_log, finalize_snapshot_installation}: %s]" % (eob["message"], rr["message"][:400])
+    obligations.append(eob)
     # the byte stream of the transfer on the receiving node
     from . import c08stream
     sob = c08stream.run(tier, seed)
